@@ -136,6 +136,11 @@ func c18Basics(r *hx.Run, cw *c18World, ps *plans, rnd *rand.Rand, n int) {
 		target := cw.caches[rnd.Intn(len(cw.caches))]
 		cs := map[string]interface{}{"uri": uri, "variant": variant, "target": target, "answer": a}
 		var pr *hx.Result
+		if i%4 == 0 {
+			// the store's delete takes 25 ms: when the purge is acknowledged the record must be gone all the same
+			cw.slowDelete.Store(int64(25 * time.Millisecond))
+			r.Add("basic_purges_with_a_slow_store_delete", 1)
+		}
 		switch variant {
 		case "named":
 			pr = cw.purge(c18Key(uri), target)
@@ -154,6 +159,7 @@ func c18Basics(r *hx.Run, cw *c18World, ps *plans, rnd *rand.Rand, n int) {
 		case "absent_key":
 			pr = cw.purge(c18Key(uri+"/absent"), target)
 		}
+		cw.slowDelete.Store(0)
 		r.Eval(1)
 		r.Add("purge_"+variant, 1)
 		if pr.Err != nil || pr.Status != 204 {
